@@ -22,10 +22,14 @@ for f in mutants/*.diff; do
 done
 for d in seeded/*/; do
   id=$(basename $d); c=$(echo $id | cut -c1-3)
+  if [ -f $d/NOT_A_BREAKAGE ]; then
+    echo "| seeded/$id | independent sub-agent | $c | n/a | not a breakage: it is the repair of a defect of the pinned tree (see seeded/$id/NOT_A_BREAKAGE) |" >> $OUT
+    continue
+  fi
   R=$(tools/mutant.sh /verif/$d/patch.diff $c)
   rc=$(echo "$R" | sed -n 's/.*exit=\([0-9]*\).*/\1/p'); cls=$(echo "$R" | sed -n 's/.*  class \([^ ]*\) .*/\1/p' | head -1)
   echo "| seeded/$id | independent sub-agent | $c | $rc | $cls |" >> $OUT
 done
 echo >> $OUT
-echo "Missed: $(grep -c '| 0 |' $OUT); harness errors: $(grep -c '| 2 |' $OUT); detected: $(grep -c '| 1 |' $OUT)." >> $OUT
+echo "Missed: $(grep -c '| 0 |' $OUT); harness errors: $(grep -c '| 2 |' $OUT); patch did not apply: $(grep -c '|  |' $OUT); detected: $(grep -c '| 1 |' $OUT)." >> $OUT
 tail -1 $OUT
